@@ -472,6 +472,8 @@ class Fn:
     def _const_tree(self, op):
         if 'fn' in op:
             return ('fnitem', strip_generics(op['fn']), tuple(op.get('targs', [])))
+        if 'static' in op:
+            return ('ref', ('static', strip_generics(op['static'])))
         if 'promoted' in op:
             return ('promoted', op['promoted'])
         if 'int' in op:
